@@ -274,6 +274,25 @@ def step1 (w : W) (op impl : String) : W × String × Verdict :=
     let expected := "Rok M" ++ msg ++ " H" ++ last
     let (m, v) := finish w impl expected "" "" implRes "ok"
     (w, m, if v matches .hold then .hold else .fail)
+  | ["getblocksw", n, last, req, maxlen] =>
+    -- serving under an outgoing-message limit: what is sent must be a prefix of the blocks asked for and its
+    -- frame must fit the limit (gnet refuses longer frames, and the requester asks again from the same head);
+    -- how long the prefix has to be is C23's statement (sizes are not part of this model)
+    let s := getNode w n
+    let full := (getBlocks s (natOf last) (natOf req) 5).map fun b => s!"{b.seq}:{b.hh}"
+    let body := (((impl.splitOn "Rok M").getD 1 "").splitOn " H").getD 0 ""
+    let inner := ((body.splitOn "GIVB(").getD 1 "").splitOn ")[len="
+    let blocksStr := inner.getD 0 ""
+    let lenStr := ((inner.getD 1 "").splitOn "]").getD 0 ""
+    let implBlocks := if blocksStr == "" then [] else blocksStr.splitOn "+"
+    let good :=
+      if body == "" then true   -- nothing sent (nothing to send, or not even the first block fits)
+      -- (an EMPTY GiveBlocksMessage is what the code sends when not even the first block fits the limit)
+      else implBlocks.isPrefixOf full &&
+        (match lenStr.toNat? with | some l => l ≤ natOf maxlen | none => false)
+    if good then (w, impl, .hold)
+    else (w, "Rok Msend:GIVB(<prefix of " ++ "+".intercalate full ++ ">)[len<=" ++ maxlen ++ "] H" ++ last ++
+          " #props:C33[reply-does-not-fit-the-wire]", .fail)
   | ["rebuild", n, _] =>
     -- rebuilding history / the address index from the stored chain and unspent set yields exactly the
     -- incrementally maintained data (C07 "rebuild"), then the restart removes invalid pool entries
